@@ -52,7 +52,9 @@ PLANS = {
             "thorough": [("env", "plain", 4000, 12, ["--levels", "1,3,10"]), ("menv", "plain", 4000, 12, ["--levels", "1,3,10"]),
                          ("menv", "toggle", 2000, 12, []), ("env", "toggle", 2000, 12, [])]},
     "C11": {"quick": [("env", "plain", 600, 10, ["--levels", "1,2,5,10,24"]), ("menv", "plain", 600, 10, ["--levels", "1,3,10"]),
-                      ("menv", "plain", 300, 8, ["--assets", "2,3,4", "--levels", "1,2,3"])],
+                      ("menv", "plain", 300, 8, ["--assets", "2,3,4", "--levels", "1,2,3"]),
+                      # one crowded level per side (more than 2^16 resting orders), judged in the harness
+                      ("env", "crowd", 1, 1, ["--levels", "3"]), ("menv", "crowd", 1, 1, ["--levels", "3"])],
             "thorough": [("env", "plain", 5000, 30, ["--levels", "1,2,5,10,24"]), ("menv", "plain", 4000, 30, ["--levels", "1,3,10"]),
                          ("menv", "toggle", 1000, 20, [])]},
     "C12": {"quick": [("book", "malformed", 1200, 50, []), ("book", "disciplined", 300, 50, []), ("book", "edge", 900, 50, ["--levels", "3,10"]),
